@@ -56,13 +56,13 @@ theorem C04_guard_normalize (d i l c : Option Bool) :
 /-- L2: the guard evaluated on the message `creator.build` produces is the same boolean. -/
 theorem C04_guard_L2 (t : Trie1) (hne : t.nodes.size ≠ 0) :
     (Slim.view (Slim.encode t)).scanOK = (t.opt.inner && t.opt.leaf) := by
-  unfold Slim.view Slim.encode
+  unfold Slim.view Slim.encode Slim.encodeCreator
   simp only [hne, if_false]
   cases hi : t.opt.inner <;> cases hl : t.opt.leaf <;> simp
 
 theorem C04_nonempty_L2 (t : Trie1) (hne : t.nodes.size ≠ 0) :
     (Slim.view (Slim.encode t)).isEmpty = false := by
-  unfold Slim.view Slim.encode
+  unfold Slim.view Slim.encode Slim.encodeCreator
   simp [hne]
 
 /-- Every scan API refuses on the bit-level trie built with any of the 12 incomplete option
